@@ -2034,6 +2034,34 @@ fn volume_ops(case: usize) -> Vec<String> {
                 ops.push("flush c0".into());
             }
             ops.push("stat c0".into());
+            // one message that fills a packet of its own followed by a short tail, nothing else due in the call (every tick is
+            // 0.5 ms, all of it well inside the 300 ms resend time): each packet still fits, whatever the sender does with the
+            // tail (seeded C13x: a tail of <= 88 serialised bytes is appended to the previous packet, 1302 bytes with 4-byte
+            // varints for sequence and message id)
+            let mut k = 0u8;
+            let mut tick = |ops: &mut Vec<String>, lens: &[usize]| {
+                for len in lens {
+                    k = k.wrapping_add(1);
+                    ops.push(format!("send c0 {} {}", rel, hex(&pat(*len, k))));
+                }
+                ops.push("upd c0 500".into());
+                ops.push("flush c0".into());
+            };
+            let tails: Vec<usize> = [1usize, 40, 70].iter().copied().chain(78..=90).chain([100, 120]).collect();
+            for b in 1190usize..=1200 {
+                for t in tails.iter() {
+                    tick(&mut ops, &[b, *t]);
+                }
+                ops.push("stat c0".into());
+            }
+            // two-message tails of 80 … 90 serialised bytes (each message: payload + 1 length byte + 4 id bytes)
+            for b in 1196usize..=1200 {
+                for t2 in 40usize..=50 {
+                    tick(&mut ops, &[b, 30, t2]);
+                }
+                ops.push("stat c0".into());
+            }
+            ops.push("stat c0".into());
             ops.push("dump c0".into());
         }
         10 => {
